@@ -17,7 +17,7 @@ use crate::{
     ensure_that, fail,
     fixtures::{
         problems::{RealKind, RealP},
-        run::{build_real, inst_strategy, real_of, run_observed, tpl_strategy, Audit, EvalKind, Kind, Phase, RunSpec, StepEv},
+        run::{run_observed_auto, build_real, inst_strategy, real_of, run_observed, tpl_strategy, Audit, EvalKind, Kind, Phase, RunSpec, StepEv},
         state_with,
     },
 };
@@ -373,7 +373,7 @@ impl Check for RunCheck {
             _ => return Outcome::new(false, 0, Ok(())),
         };
         let audit = Arc::new(Mutex::new(A20::default()));
-        let _ = run_observed(&cfg, &problem, spec.seed, EvalKind::Sequential, audit.clone());
+        let _ = run_observed_auto(&cfg, &problem, spec.seed, EvalKind::Sequential, audit.clone());
         let a = audit.lock().unwrap();
         for k in 0..4 {
             if a.seen[k] > 0 {
